@@ -697,6 +697,8 @@ type concCase struct {
 	Saves   []Op
 	Deletes []string
 	Pre     []Op
+	// TwoUIs: the requests are spread over two web UIs of one process that share the settings file
+	TwoUIs bool
 }
 
 func genConc(t *rapid.T) *concCase {
@@ -705,6 +707,7 @@ func genConc(t *rapid.T) *concCase {
 	for i := 0; i < n; i++ {
 		c.Saves = append(c.Saves, Op{Name: fmt.Sprintf("cfg%d", i), Params: genValidParams(t)})
 	}
+	c.TwoUIs = rapid.Bool().Draw(t, "twouis")
 	np := rapid.IntRange(0, 3).Draw(t, "npre")
 	for i := 0; i < np; i++ {
 		c.Pre = append(c.Pre, Op{Name: fmt.Sprintf("old%d", i), Params: genValidParams(t)})
@@ -718,11 +721,21 @@ func genConc(t *rapid.T) *concCase {
 func checkConc(c *concCase, o *vk.Obs) []string {
 	var e vk.Errs
 	os.RemoveAll(filepath.Dir(settingsPath()))
-	w, err := pp.StartWeb(pp.Req{Args: []string{"src"}, Sources: map[string]*pp.Source{"src": {Prof: tiny()}}})
+	w, err := pp.StartWebNoCapture(pp.Req{Args: []string{"src"}, Sources: map[string]*pp.Source{"src": {Prof: tiny()}}})
 	if err != nil {
 		return []string{"web did not start: " + err.Error()}
 	}
 	defer w.Close()
+	uis := []*pp.Web{w}
+	if c.TwoUIs {
+		w2, err := pp.StartWebNoCapture(pp.Req{Args: []string{"src"}, Sources: map[string]*pp.Source{"src": {Prof: tiny()}}})
+		if err != nil {
+			return []string{"second web UI did not start: " + err.Error()}
+		}
+		defer w2.Close()
+		uis = append(uis, w2)
+		o.Label("two-web-uis")
+	}
 	for _, op := range c.Pre {
 		w.Get("/saveconfig?" + query(op.Params, op.Name))
 	}
@@ -730,10 +743,15 @@ func checkConc(c *concCase, o *vk.Obs) []string {
 	start := make(chan struct{})
 	var mu sync.Mutex
 	fail := 0
+	nreq := 0
 	do := func(target string) {
+		mu.Lock()
+		ui := uis[nreq%len(uis)]
+		nreq++
+		mu.Unlock()
 		defer wg.Done()
 		<-start
-		code, _, _, _ := w.Get(target)
+		code, _, _, _ := ui.Get(target)
 		if code != 200 {
 			mu.Lock()
 			fail++
